@@ -207,6 +207,12 @@ EXTRA = _RTR + [
     # ---- C02
     ('encodeVerifyDerLength', 'src/repository/sigobj.rs',
      r'pub fn encode_verify\(&self\) -> Vec<u8> \{([\s\S]*?)\n    \}', lambda m: _encode_verify(m), ['C02', 'C10']),
+    ('encodeVerifyShort', 'src/repository/sigobj.rs',
+     r'pub fn encode_verify\(&self\) -> Vec<u8> \{[\s\S]*?if len < (\w+) \{\s*res\.push\(len as u8\)', 'nat', ['C02', 'C10']),
+    ('encodeVerifyMid', 'src/repository/sigobj.rs',
+     r'pub fn encode_verify\(&self\) -> Vec<u8> \{[\s\S]*?else if len < (\w+) \{\s*res\.push\(0x81\);', 'nat', ['C02', 'C10']),
+    ('encodeVerifyMax', 'src/repository/sigobj.rs',
+     r'pub fn encode_verify\(&self\) -> Vec<u8> \{[\s\S]*?else if len < (\w+) \{\s*res\.push\(0x82\);', 'nat', ['C02', 'C10']),
     # ---- C10
     ('sigmsgValidateSteps', 'src/ca/sigmsg.rs',
      r'pub fn validate_at\(\s*&self, issuer_key: &PublicKey, when: Time\s*\) -> Result<\(\), ValidationError> \{\s*(self\.inspect\(\)\?;\s*self\.verify\(\)\?;\s*self\.ee_cert\.validate_ee_at\(issuer_key, when\)\?;\s*self\.crl\.validate\(issuer_key, when\)\?;\s*self\.crl\.verify_not_revoked\(&self\.ee_cert\)\?;\s*Ok\(\(\)\))',
